@@ -467,9 +467,9 @@ func runBox(c *hx.Ctx) {
 	if c.Replay != "" {
 		return
 	}
-	n, l := 25, 10
+	n, l := 20, 10
 	if c.Thorough() {
-		n, l = 250, 25
+		n, l = 150, 20
 	}
 	for i := 0; i < n; i++ {
 		boxScenario(c, l)
